@@ -267,4 +267,35 @@ def install(interp):
             return T(pr.f(z3.IntVal(0)), pr.dtype, None, None, pr.eshape, pr.nan_at(z3.IntVal(0)))
         raise Unsupported(f"einops.einsum pattern {pattern!r}")
 
-    interp.namespaces["einops"] = Namespace("einops", dict(rearrange=rearrange, einsum=einsum))
+    def ereduce(x, pattern, reduction, **axes):
+        """einops.reduce over the leading axis of a LIST of equally shaped tensors ('s ... -> ...'): element-wise
+        combination; the variant 's ... -> () ...' additionally inserts a unit axis in front."""
+        pat = " ".join(pattern.split())
+        if isinstance(x, (list, tuple)) and pat in ("s ... -> ...", "s ... -> () ...") and x and all(isinstance(t, T) and t.tlen is None for t in x):
+            vals = [tz.coerce(t.f, "float") for t in x]
+            if reduction == "sum":
+                r = vals[0]
+                for v in vals[1:]:
+                    r = r + v
+            elif reduction == "mean":
+                r = vals[0]
+                for v in vals[1:]:
+                    r = r + v
+                r = r / len(vals)
+            elif reduction == "prod":
+                r = vals[0]
+                for v in vals[1:]:
+                    r = r * v
+            elif reduction in ("min", "max"):
+                r = vals[0]
+                for v in vals[1:]:
+                    r = z3.If(v < r, v, r) if reduction == "min" else z3.If(v > r, v, r)
+            else:
+                raise Unsupported(f"einops.reduce reduction {reduction!r}")
+            es = x[0].eshape
+            if pat.endswith("() ...") and es is not None:
+                es = tz.Shape((1,) + es.items)
+            return T(r, "float", None, None, es)
+        raise Unsupported(f"einops.reduce pattern {pattern!r}")
+
+    interp.namespaces["einops"] = Namespace("einops", dict(rearrange=rearrange, einsum=einsum, reduce=ereduce))
